@@ -11,7 +11,11 @@ import (
 	"flag"
 	"fmt"
 	"os"
+	"os/exec"
+	"path/filepath"
 	"sort"
+	"strconv"
+	"time"
 
 	"github.com/zerx-lab/wordZero/pkg/document"
 )
@@ -22,7 +26,12 @@ type runCfg struct {
 	out    string
 	replay string
 	tier   string
+	only   int // run only this case index (-1 = all); used to isolate a crashing case
 }
+
+// properties whose workload may kill the process (stack overflow, runaway recursion): the whole run
+// happens in a child process; if the child dies, each case is re-run alone to find the culprit
+var isolated = map[string]bool{"C14": true, "C06": true}
 
 var props = map[string]func(cfg *runCfg) error{}
 
@@ -39,6 +48,7 @@ func main() {
 	fs.StringVar(&cfg.out, "out", "", "output directory")
 	fs.StringVar(&cfg.replay, "replay", "", "replay file")
 	fs.StringVar(&cfg.tier, "tier", "quick", "tier")
+	fs.IntVar(&cfg.only, "only", -1, "run only this case")
 	fs.Parse(os.Args[2:])
 	document.SetGlobalLevel(document.LogLevelSilent)
 	f, ok := props[name]
@@ -59,8 +69,70 @@ func main() {
 		fmt.Fprintln(os.Stderr, err)
 		os.Exit(2)
 	}
+	if isolated[name] && os.Getenv("WZH_CHILD") == "" {
+		if err := runIsolated(name, cfg); err != nil {
+			fmt.Fprintln(os.Stderr, "wzh:", err)
+			os.Exit(2)
+		}
+		return
+	}
 	if err := f(cfg); err != nil {
 		fmt.Fprintln(os.Stderr, "wzh:", err)
 		os.Exit(2)
 	}
+}
+
+func childCmd(name string, cfg *runCfg, only int, out string) *exec.Cmd {
+	args := []string{name, "-seed", strconv.FormatUint(cfg.seed, 10), "-n", strconv.Itoa(cfg.n), "-out", out, "-tier", cfg.tier, "-only", strconv.Itoa(only)}
+	c := exec.Command(os.Args[0], args...)
+	c.Env = append(os.Environ(), "WZH_CHILD=1", "GOMAXPROCS=4")
+	return c
+}
+
+func runWithTimeout(c *exec.Cmd, d time.Duration) (err error, timedOut bool) {
+	if err := c.Start(); err != nil {
+		return err, false
+	}
+	done := make(chan error, 1)
+	go func() { done <- c.Wait() }()
+	select {
+	case e := <-done:
+		return e, false
+	case <-time.After(d):
+		c.Process.Kill()
+		<-done
+		return fmt.Errorf("timeout"), true
+	}
+}
+
+func runIsolated(name string, cfg *runCfg) error {
+	c := childCmd(name, cfg, -1, cfg.out)
+	c.Stderr = os.Stderr
+	err, _ := runWithTimeout(c, 25*time.Minute)
+	if err == nil {
+		if _, e := os.Stat(filepath.Join(cfg.out, "result.json")); e == nil {
+			return nil
+		}
+	}
+	// the child died: find the first case that kills it
+	res := newResult(name, cfg.seed)
+	res.Rule = "the workload process died; cases re-run one per process to find the culprit"
+	for i := 0; i < cfg.n; i++ {
+		sub := filepath.Join(cfg.out, "iso")
+		os.MkdirAll(sub, 0755)
+		cc := childCmd(name, cfg, i, sub)
+		e, timedOut := runWithTimeout(cc, 20*time.Second)
+		res.Evaluations++
+		if e != nil {
+			kind := "no_crash"
+			if timedOut {
+				kind = "terminates"
+			}
+			res.OracleFailures = append(res.OracleFailures, OracleFailure{Clause: kind, Detail: fmt.Sprintf("case %d kills the process (%v): re-run with `wzh %s -seed %d -n %d -only %d`", i, e, name, cfg.seed, cfg.n, i), CaseID: i, Case: map[string]interface{}{"seed": cfg.seed, "n": cfg.n, "only": i}})
+			break
+		}
+	}
+	res.DistinctNontrivial = res.Evaluations
+	res.write(cfg.out)
+	return nil
 }
